@@ -144,18 +144,6 @@ func (r *run) has(kind string) bool {
 	return ok
 }
 
-// hasSince reports whether an event of this kind exists with seq >= from.
-func (r *run) hasSince(kind string, from int) bool {
-	r.mu.Lock()
-	defer r.mu.Unlock()
-	for i := len(r.evs) - 1; i >= from && i >= 0; i-- {
-		if r.evs[i].Kind == kind {
-			return true
-		}
-	}
-	return false
-}
-
 func (r *run) nEvents() int {
 	r.mu.Lock()
 	defer r.mu.Unlock()
@@ -186,31 +174,6 @@ func (r *run) await(bound time.Duration, kinds ...string) string {
 		case <-w:
 		case <-timer.C:
 			return ""
-		}
-	}
-}
-
-func (r *run) awaitSince(bound time.Duration, kind string, from int) bool {
-	deadline := time.NewTimer(bound)
-	defer deadline.Stop()
-	for {
-		r.mu.Lock()
-		ok := false
-		for i := len(r.evs) - 1; i >= from && i >= 0; i-- {
-			if r.evs[i].Kind == kind {
-				ok = true
-				break
-			}
-		}
-		w := r.wake
-		r.mu.Unlock()
-		if ok {
-			return true
-		}
-		select {
-		case <-w:
-		case <-deadline.C:
-			return false
 		}
 	}
 }
@@ -463,7 +426,6 @@ func (r *run) cleanup() {
 		r.out[roleP] = "answer"
 	}
 	r.mu.Unlock()
-	atCleanup := r.nEvents()
 	r.release(roleP)
 	r.release(roleS)
 	r.resume()
@@ -487,7 +449,6 @@ func (r *run) cleanup() {
 		}
 	}
 	r.settle(false)
-	_ = atCleanup
 	runs.Delete(r.name)
 	r.mu.Lock()
 	for i := 0; i < 2; i++ {
